@@ -23,7 +23,7 @@ def tasks(tier):
 
     # Ovld level: a change on a function in use rebuilds it (and its linked descendants) into a brand-new table
     # filled from the effective method table; _set pushes a replaced signature down
-    ovld_level = _core.update_tasks()[:-1] + _core.compile_tasks() + _core.register_frame_tasks()[:2] + _core.unregister_frame_tasks()[:2]
+    ovld_level = _core.update_tasks()[:-1] + _core.compile_tasks() + _core.attr_copy_tasks() + _core.register_frame_tasks()[:2] + _core.unregister_frame_tasks()[:2]
     return ovld_level + _tm.state_tasks() + _tm.typemap_tasks()[:1] + _tm.register_tasks() + _tm.mtm_missing_tasks(("plain",)) + [
         _tm.T("frames.register", __import__("pyvc.frames", fromlist=["frame_task"]).frame_task("frames.register", [
             ("TypeMap.register.writes_only_its_tables_and_cache", "typemap:TypeMap.register", "writes_within", ["types", "entries", "dict"]),
